@@ -314,6 +314,43 @@ func (a byLen%[1]d) Less(i, j int) bool { return len(a[i]) < len(a[j]) || (len(a
 	}
 `, id, 1+r.Intn(4), r.Intn(9)), []string{"fmt"}
 	}},
+	// shapes reported by builder compC (callee declared after its caller while the caller has a
+	// local named like an imported package; composite literal in parentheses in an if/switch header)
+	{"late-callee-shadow-pkg", func(r *vh.Rand, id int) (string, string, []string) {
+		return fmt.Sprintf(`type fakeFmt%[1]d struct{}
+
+func (fakeFmt%[1]d) Sprint(a ...interface{}) string { return "local" }
+
+func unit%[1]d() string {
+	fmt := fakeFmt%[1]d{}
+	_ = fmt
+	return keep%[1]d(%[2]d)
+}
+
+func keep%[1]d(n int) string { return fmt.Sprint("pkg", n) }
+`, id, r.Intn(100)), fmt.Sprintf("\tfmt.Println(unit%[1]d())\n", id), []string{"fmt"}
+	}},
+	{"paren-complit-header", func(r *vh.Rand, id int) (string, string, []string) {
+		return fmt.Sprintf("type hdr%[1]d struct{ a, b int }\n", id), fmt.Sprintf(`	if x := (hdr%[1]d{%[2]d, 2}); x.a > %[3]d {
+		fmt.Println("big", x)
+	} else if y := (hdr%[1]d{}); y == (hdr%[1]d{}) {
+		fmt.Println("zero", x, y)
+	}
+	for _, v := range ([]hdr%[1]d{{1, 2}, {3, 4}}) {
+		fmt.Println(v.a + v.b)
+	}
+`, id, r.Intn(10), r.Intn(10)), []string{"fmt"}
+	}},
+	{"local-named-like-pkg", func(r *vh.Rand, id int) (string, string, []string) {
+		return fmt.Sprintf(`func localPkg%[1]d() int {
+	switch strconv := %[2]d; {
+	case strconv > 2:
+		return strconv
+	}
+	return 0
+}
+`, id, r.Intn(9)), fmt.Sprintf("\tfmt.Println(localPkg%[1]d(), strconv.Itoa(%[2]d))\n", id, r.Intn(100)), []string{"fmt", "strconv"}
+	}},
 }
 
 // panicking tails: the program ends with one of these (exit status and panic value compared).
@@ -368,7 +405,7 @@ func GenGoExt(r *vh.Rand, k int) (src string, names []string) {
 	var decls, body strings.Builder
 	perm := r.Intn(len(extSnippets))
 	for i := 0; i < k; i++ {
-		s := extSnippets[(perm+i*5)%len(extSnippets)]
+		s := extSnippets[(perm+i*7)%len(extSnippets)]
 		d, b, im := s.gen(r, i+1)
 		decls.WriteString(d)
 		if d != "" {
